@@ -8,6 +8,13 @@
    outstanding worker job ([Recv k]).  Worker [process] calls are accounted at [Recv]
    (they only insert data blobs, which commutes with everything the filter reads).
 
+   Clients: FindUsedBlobs' process returns the load / decode error (modelled: [Err]).  The
+   checker's process (Checker.Structure / checkTree) never returns an error but must report
+   the damaged tree; the engine's whole-program scenario "check-cli-*" runs the real
+   `restic check` on a crafted snapshot and records "error reported (exit 1, no crash)" as
+   [o_err], so a reachable unreadable tree that is not reported - or a crash, as in F-C42-1
+   (checkTree breaks out of the iterator, subtreesCollector panics) - fails clause 2.
+
    check_case codes: 0 ok; 2 error status differs from the specification; 3 tree-blob set wrong;
    4 data-blob set wrong; 5 process/load multiset is not "each reachable tree exactly once";
    6 progress counter wrong.  (1 is not used: every compared observable is part of the
